@@ -12,7 +12,7 @@
 (***************************************************************************)
 EXTENDS Integers, Sequences, Json, TLC
 
-Ops == ndJsonDeserialize("ops.ndjson")        \* [op, file, n]  op: "open_trunc" | "write" | "rename" | "unlink" | "fsync" | "close"
+Ops == ndJsonDeserialize("ops.ndjson")        \* [op, file, n]  op: "open_trunc" | "open_create" | "write" | "rename" | "unlink" | "fsync" | "close"
 NewLen == Ops[1].newlen                        \* every line carries the total length of the new content
 
 Absent == [kind |-> "absent", len |-> 0]
@@ -22,6 +22,7 @@ Start == [f \in Names |-> IF f = "target" THEN [kind |-> "old", len |-> 0] ELSE 
 
 Apply(fs, o) ==
   CASE o.op = "open_trunc" -> [fs EXCEPT ![o.file] = Content(0)]
+    [] o.op = "open_create" -> IF fs[o.file].kind = "absent" THEN [fs EXCEPT ![o.file] = Content(0)] ELSE fs
     [] o.op = "write" -> [fs EXCEPT ![o.file] = Content(fs[o.file].len + o.n)]
     [] o.op = "rename" -> [fs EXCEPT ![o.to] = fs[o.file], ![o.file] = Absent]
     [] o.op = "unlink" -> [fs EXCEPT ![o.file] = Absent]
